@@ -92,5 +92,8 @@ deriving Repr, DecidableEq, Inhabited
 structure Oracles where
   /-- `re.compile(pattern).match(s) is not None` -/
   reMatch : String → String → Bool
+  /-- the class's `__validate__` hook, as a verdict on the attribute state it would see (`true` =
+      returns normally); run after every validated assignment to an instantiated instance -/
+  hookOk : List (String × PyVal) → Bool := fun _ => true
 
 end Typedpy
